@@ -30,16 +30,27 @@ EXPLANATION = (
     "a class in opcodes.py (found by the globals() lookup of _make_opcodes) "
     "and the class it resolves to through for_python_version has a "
     "VirtualMachine handler named by run_instruction's getattr dispatch "
-    "(EXTENDED_ARG, never yielded by the reader, is the listed exception); "
-    "synthetic opcodes built by pytype itself are included.  R15.2: the first "
+    "(`getattr(self, f'<prefix>{op.name}')` in run_instruction itself or in a "
+    "method of the VirtualMachine it calls with the opcode, two levels; "
+    "EXTENDED_ARG, never yielded by the reader, is the listed exception); "
+    "synthetic opcodes built by pytype itself are included.  R15.2 "
+    "(check_or_generate_pyi is read with the module-level helpers it delegates "
+    "to inlined - statement calls, `x = f(..)` with one trailing return, tail "
+    "calls; check_py / generate_pyi stay calls): the first "
     "handler of check_or_generate_pyi's try that catches CompileError / "
     "ConstantError / IndentationError / SyntaxError builds the 3-tuple "
     "consumed by errorlog.python_compiler_error from attributes those "
     "exceptions really have; UsageError is re-raised; no handler with a "
     "different body is dead behind an earlier superclass handler.  R15.3: "
-    "status byte written by compile_bytecode equals the one compiler.py "
-    "branches on; _COMPILE_ERROR_RE parses what str(SyntaxError) produces "
-    "(host CPython); the sub-process argv has the length and order main() "
+    "the status byte compile_bytecode writes for success / failure makes the "
+    "reader in compiler.py return <buf>[1:] / raise CompileError: the tail of "
+    "compile_src_string_to_pyc_string from the read of <buf>[0] is evaluated "
+    "for concrete status values (tests ==, !=, in, not in, and/or/not over the "
+    "status and constants; if/elif chains and guard clauses alike; any other "
+    "test is an analysis error); _COMPILE_ERROR_RE parses what "
+    "str(SyntaxError) produces (host CPython) and CompileError takes error / "
+    "filename / line from groups 1/2/3 (group(k) calls or names unpacked from "
+    "match.groups()); the sub-process argv has the length and order main() "
     "expects.  R15.4/R15.7: `op.arg`/`op.argval` is only read where the "
     "opcode class has the slot (HAS_ARGUMENT), including reads reached through "
     "helper methods, vm_utils helpers and isinstance-guarded reads in other "
@@ -47,8 +58,9 @@ EXPLANATION = (
     "subclass reaches an arm of errors.invalid_function_call before its "
     "`raise AssertionError`.  R15.6: HAS_ARGUMENT <=> OpcodeWithArg base, and "
     "every constructor call passes a number of arguments __init__ accepts.  "
-    "R15.8: every handler takes (state, op) and returns a state on every "
-    "path.  R15.10: for every attribute that vm.py / vm_utils.py / "
+    "R15.8: every handler takes (state, op) - as many arguments as the call "
+    "of the looked-up handler (or of a plain copy of it) in run_instruction "
+    "passes - and returns a state on every path.  R15.10: for every attribute that vm.py / vm_utils.py / "
     "pattern_matching.py hand to len(), iteration, subscripting, `in` or "
     "*-unpacking as `<x>.attr` with no test of `<x>.attr` on the path (nor "
     "earlier in the same and/if-else expression), every `<recv>.attr = RHS` "
